@@ -3,7 +3,7 @@ from sa.paths import gate_check, Cfg
 from sa.flow import origin_chain, all_defs, field_accesses, value_sources
 from sa.match import const_value
 from sa.build import AnalysisBroken
-from props.common import expiry_comparisons, expired_fact, live_fact, is_now, rx
+from props.common import expiry_comparisons, expired_fact, live_fact, is_now, rx, assignments
 
 UNITS = ['src/core/ChunkStore.cpp', 'src/core/Node.cpp', 'src/dht/KademliaTable.cpp',
          'src/core/SwarmCoordinator.cpp', 'src/daemon/ControlServer.cpp']
@@ -196,3 +196,31 @@ def run(ck):
     direct = any(sc.nodes[sc.strip(sc.kids(r)[0])].get('callee') == CS + 'snapshot' for r in rets)
     ck.ob('C01.list', 'C01.list/stored_chunks-filter', bool(snap) and bool(er) and lam_ok and not direct, sc.loc(),
           'Node::stored_chunks (source of LIST/STATUS) removes rows with now >= expires_at from the snapshot before returning it')
+
+    # the shard record of an id is replaced as a whole by every publish: the latest store's key shares are the ones a fetch combines
+    PK = ck.prog(['src/dht/KademliaTable.cpp'])
+    ps = PK.fn('ephemeralnet::KademliaTable::publish_shards')
+    ck.touch(ps)
+    from sa.paths import Cfg as _Cfg
+    from sa.flow import value_sources as _vs
+    installs = []
+    for i in ps.walk():
+        nd = ps.nodes[i]
+        if nd['k'] == 'CXXOperatorCallExpr' and nd.get('op') == '=' and len(ps.kids(i)) == 3:
+            l = ps.strip(ps.kids(i)[1])
+            ln = ps.nodes[l]
+            if ln['k'] == 'CXXOperatorCallExpr' and ln.get('op') == '[]' and ps.nodes[ps.strip(ps.kids(l)[1])].get('m', '').endswith('KademliaTable::shard_table_'):
+                installs.append(i)
+        if nd['k'] == 'CXXMemberCallExpr' and (nd.get('callee') or '').endswith('::insert_or_assign') and ps.nodes[ps.strip(ps.receiver(i))].get('m', '').endswith('KademliaTable::shard_table_'):
+            installs.append(i)
+    cfg_ps = _Cfg.of(ps)
+    wit = cfg_ps.must_pass_from((cfg_ps.entry, -1), lambda e, s_=set(installs): e in s_ or any(ps.is_in(x, e) for x in s_) and ps.nodes[e]['k'] == 'ExprWithCleanups') \
+        if installs else ['no assignment to shard_table_[id]']
+    shards_d = ps.params[1]['d']
+    from_param = False
+    for l_, r_, s_ in assignments(ps):
+        ln = ps.nodes[ps.strip(l_)]
+        if ln['k'] == 'MemberExpr' and ln.get('n') == 'shards':
+            from_param = any(ps.nodes[j]['k'] == 'DeclRefExpr' and ps.nodes[j].get('d') == shards_d for j in ps.walk(r_))
+    ck.ob('C01.put', 'C01.put/shards-always-replaced', wit is None and from_param, ps.loc(),
+          'every path through publish_shards stores a record built from the shards it was given (an overwrite of a live id replaces the key shares too)', wit)
